@@ -85,6 +85,69 @@ case("C07", "C07-m-renameother", "mutant", "index renamed from a fixed name inst
 case("C07", "C07-b-tmpname", "benign", "temp name taken from (*os.File).Name() instead of Stat().Name()",
      edits=[("scheme/ocidir/ocidir.go", "\tindexFile := path.Join(r.Path, \"index.json\")\n\terr = os.Rename(path.Join(r.Path, tmpName), indexFile)", "\tindexFile := path.Join(r.Path, \"index.json\")\n\t_ = tmpName\n\terr = os.Rename(tmpFile.Name(), indexFile)")])
 
+# ---------------------------------------------------------------- C08
+case("C08", "C08-seed1", "mutant", "seeded: mark phase only loads index entries whose media type is in an allow-list",
+     patch="seeded/C08-1/patch.diff", expect=[("C08.R4", "closeProcManifest", "recursion")])
+case("C08", "C08-seed2", "mutant", "seeded: GCUnlock drops the bookkeeping entry of an unmodified layout without checking the lock count",
+     patch="seeded/C08-2/patch.diff", expect=[("C08.R2", "GCUnlock", "delete(")])
+case("C08", "C08-m-nodefer", "mutant", "GC lock released right after it is taken instead of by defer",
+     edits=[("image.go", "\t\ttgtGCLocker.GCLock(refTgt)\n\t\tdefer tgtGCLocker.GCUnlock(refTgt)\n", "\t\ttgtGCLocker.GCLock(refTgt)\n\t\ttgtGCLocker.GCUnlock(refTgt)\n")],
+     expect=[("C08.R1", "ImageCopy", "GCLock paired")])
+case("C08", "C08-m-nolocktest", "mutant", "Close sweeps although a copy holds the GC lock",
+     edits=[("scheme/ocidir/close.go", "if gc, ok := o.modRefs[r.Path]; !ok || !gc.mod || gc.locks > 0 {", "if gc, ok := o.modRefs[r.Path]; !ok || !gc.mod {")],
+     expect=[("C08.R2", "Close", "sweep removal")])
+case("C08", "C08-m-noconfig", "mutant", "mark phase forgets the config blob",
+     edits=[("scheme/ocidir/close.go", "\t\tif err == nil {\n\t\t\t(*dl)[cd.Digest.String()] = true\n\t\t}\n", "\t\t_ = cd\n\t\t_ = err\n")],
+     expect=[("C08.R4", "closeProcManifest", "GetConfig")])
+case("C08", "C08-m-dirtyread", "mutant", "a read (ManifestGet) marks the layout modified",
+     edits=[("scheme/ocidir/manifest.go", "\to.mu.Lock()\n\tdefer o.mu.Unlock()\n\treturn o.manifestGet(ctx, r)\n", "\to.mu.Lock()\n\tdefer o.mu.Unlock()\n\to.refMod(r)\n\treturn o.manifestGet(ctx, r)\n")],
+     expect=[("C08.R3", "ManifestGet", "")])
+case("C08", "C08-b-sweepform", "benign", "sweep guard written as two separate tests",
+     edits=[("scheme/ocidir/close.go", "\tif gc, ok := o.modRefs[r.Path]; !ok || !gc.mod || gc.locks > 0 {\n\t\t// unmodified or locked, skip gc\n\t\treturn nil\n\t}\n", "\tgc, ok := o.modRefs[r.Path]\n\tif !ok || !gc.mod {\n\t\treturn nil\n\t}\n\tif gc.locks > 0 {\n\t\treturn nil\n\t}\n")])
+
+# ---------------------------------------------------------------- C10
+case("C10", "C10-D6", "mutant", "historical defect D6 re-introduced: referrerDelete without the fallback-tag lock",
+     patch="selftest/regress/D6.diff", expect=[("C10.R1", "referrerDelete", "read-modify-write")])
+case("C10", "C10-seed1", "mutant", "seeded: server-filtered referrer list cached under the subject's key",
+     patch="seeded/C10-1/patch.diff", expect=[("C10.R2", "ReferrerList", "Set value")])
+case("C10", "C10-seed2", "mutant", "seeded: per-subject lock map with delete-on-unlock (unrecognised idiom, and broken)",
+     patch="seeded/C10-2/patch.diff", expect=[("C10.R1", "referrerPut", "read-modify-write")])
+case("C10", "C10-seedC06-1", "mutant", "seeded (C06-1): cache keyed by the raw reference in delete/get/head",
+     patch="seeded/C06-1/patch.diff", expect=[("C10.R2", "ManifestDelete", "key")])
+case("C10", "C10-m-dup", "mutant", "Add appends without checking for an existing entry",
+     edits=[("types/referrer/referrer.go", "\tfor _, d := range rlM.Manifests {\n\t\tif d.Digest == mDesc.Digest {\n\t\t\treturn nil\n\t\t}\n\t}\n", "")],
+     expect=[("C10.R4", "Add", "no duplicate")])
+case("C10", "C10-m-nosetorig", "mutant", "Delete returns without re-serialising the index",
+     edits=[("types/referrer/referrer.go", "\trl.Descriptors = rlM.Manifests\n\terr := rl.Manifest.SetOrig(rlM)\n\tif err != nil {\n\t\treturn err\n\t}\n\treturn nil\n}\n\n// IsEmpty", "\trl.Descriptors = rlM.Manifests\n\treturn nil\n}\n\n// IsEmpty")],
+     expect=[("C10.R4", "Delete", "re-serialised")])
+case("C10", "C10-m-inval", "mutant", "subject's cached list only invalidated when the registry did not acknowledge the subject",
+     edits=[("scheme/reg/manifest.go", "\t\t\treg.cacheRL.Delete(rSubj)\n\t\t\tif mDesc.Digest.String() != resp.HTTPResponse().Header.Get(OCISubjectHeader) {\n", "\t\t\tif mDesc.Digest.String() != resp.HTTPResponse().Header.Get(OCISubjectHeader) {\n\t\t\t\treg.cacheRL.Delete(rSubj)\n")],
+     expect=[("C10.R2", "ManifestPut", "invalidates")])
+case("C10", "C10-b-explicit", "benign", "referrerDelete cache invalidation through a local variable",
+     edits=[("scheme/reg/referrer.go", "\trSubject := r.SetDigest(subject.Digest.String())\n\treg.cacheRL.Delete(rSubject)\n", "\trSubject := r.SetDigest(subject.Digest.String())\n\tkey := rSubject\n\treg.cacheRL.Delete(key)\n")])
+
+# ---------------------------------------------------------------- C17
+case("C17", "C17-D7", "mutant", "historical defect D7 re-introduced: next re-entered with a slot still stored in the response",
+     patch="selftest/regress/D7.diff", expect=[("C17.R6", "next", "Acquire after release")])
+case("C17", "C17-seed1", "mutant", "seeded: cancelled waiter that was handed a slot only removes itself from the active list",
+     patch="seeded/C17-1/patch.diff", expect=[("C17.R3", "Acquire", "return after enqueue")])
+case("C17", "C17-seed2", "mutant", "seeded: AcquireMulti clean-up no longer releases the blocking slot",
+     patch="seeded/C17-2/patch.diff", expect=[("C17.R5", "AcquireMulti", "blocking slot")])
+case("C17", "C17-m-early-unlock", "mutant", "Acquire releases the mutex between the admission check and the enqueue",
+     edits=[("internal/pqueue/pqueue.go", "\t// limit reached, add to queue and wait\n\tw := make(chan struct{}, 1)\n", "\t// limit reached, add to queue and wait\n\tq.mu.Unlock()\n\tw := make(chan struct{}, 1)\n\tq.mu.Lock()\n")],
+     expect=[("C17.R2", "Acquire", "check-then-act")])
+case("C17", "C17-m-nolock-release", "mutant", "release without taking the mutex",
+     edits=[("internal/pqueue/pqueue.go", "func (q *Queue[T]) release(prev *T) {\n\tq.mu.Lock()\n\tdefer q.mu.Unlock()\n", "func (q *Queue[T]) release(prev *T) {\n")],
+     expect=[("C17.R1", "release", "")])
+case("C17", "C17-m-leak-caller", "mutant", "ocidir BlobPut releases its slot only on the success path",
+     edits=[("scheme/ocidir/blob.go", "\tdefer done()\n\n\terr = o.initIndex(r, false)\n\tif err != nil {\n\t\treturn d, err\n\t}\n", "\terr = o.initIndex(r, false)\n\tif err != nil {\n\t\treturn d, err\n\t}\n\tdefer done()\n")],
+     expect=[("C17.R6", "BlobPut", "Acquire")])
+case("C17", "C17-m-handoff-index", "mutant", "release wakes waiter i but admits waiter 0",
+     edits=[("internal/pqueue/pqueue.go", "\tq.active = append(q.active, q.queued[i])\n", "\tq.active = append(q.active, q.queued[0])\n")],
+     expect=[("C17.R4", "release", "hand-off")])
+case("C17", "C17-b-tryacquire-explicit", "benign", "TryAcquire with explicit unlocks instead of defer",
+     edits=[("internal/pqueue/pqueue.go", "\tq.mu.Lock()\n\tdefer q.mu.Unlock()\n\tif len(q.active)+len(q.queued) < q.max {\n\t\tq.active = append(q.active, &e)\n\t\treturn q.releaseFn(&e), nil\n\t}\n\treturn nil, nil\n", "\tq.mu.Lock()\n\tif len(q.active)+len(q.queued) < q.max {\n\t\tq.active = append(q.active, &e)\n\t\tq.mu.Unlock()\n\t\treturn q.releaseFn(&e), nil\n\t}\n\tq.mu.Unlock()\n\treturn nil, nil\n")])
+
 def main():
     bad = 0
     for pid, cases in CASES.items():
